@@ -25,6 +25,7 @@ import (
 	"sort"
 	"strings"
 	"testing"
+	"time"
 
 	"github.com/glyphlang/glyph/internal/verif/vk"
 	"github.com/glyphlang/glyph/internal/verif/vrt"
@@ -59,6 +60,9 @@ type c08Scen struct {
 	// flight" is taken literally: every request must be answered exactly as on a fresh server on which nothing but the
 	// setup has run — also when the requests simply follow each other (state kept between requests is interference too).
 	Solo bool `json:"solo,omitempty"`
+	// RowsAsStored: a row read back must be what create() was given (and returned): no field the creating request
+	// assigned to its own object afterwards may appear in it
+	RowsAsStored bool `json:"rows_as_stored,omitempty"`
 	// seqMismatch (Solo scenarios): set by c08Prepare when already a sequential order of the requests on one server
 	// answers differently from the solo answers
 	seqMismatch string
@@ -249,6 +253,14 @@ const LIMIT = 10
   % redis: Redis
   > {r: redis.set(k, v)}
 }
+@ POST /setex/:k/:v {
+  % redis: Redis
+  > {r: redis.set(k, v, 1)}
+}
+@ GET /exists/:k {
+  % redis: Redis
+  > {v: redis.exists(k)}
+}
 `
 	out = append(out,
 		c08Scen{Name: "redis/incr-incr", Src: redis, Threads: [][]c08Req{{post("/incr/c", "")}, {post("/incr/c", "")}}, After: []c08Req{get("/get/c")}, Bound: 2},
@@ -284,12 +296,28 @@ const LIMIT = 10
   $ u = db.users.get(parseInt(id))
   > {name: u.name}
 }
+@ POST /mk {
+  % db: Database
+  $ u = {name: input.name, count: 0}
+  $ r = db.users.create(u)
+  $ u.count = 7
+  $ u.scratch = "local"
+  > {created: r}
+}
+@ GET /row/:id {
+  % db: Database
+  > {row: db.users.get(parseInt(id))}
+}
 `
 	out = append(out,
 		c08Scen{Name: "db/create-create", Src: db, Threads: [][]c08Req{{post("/users", `{"name":"a"}`)}, {post("/users", `{"name":"b"}`)}}, After: []c08Req{get("/count")}, Bound: 2},
 		c08Scen{Name: "db/create-count", Src: db, Setup: []c08Req{post("/users", `{"name":"z"}`)}, Threads: [][]c08Req{{post("/users", `{"name":"a"}`)}, {get("/count")}}, After: []c08Req{get("/count")}, Bound: 2},
 		c08Scen{Name: "db/read-modify-write-same-record", Src: db, Setup: []c08Req{post("/users", `{"name":"z"}`)}, Threads: [][]c08Req{{post("/bump/1", "")}, {post("/bump/1", "")}}, SafetyOnly: true, Bound: 2},
 		c08Scen{Name: "db/modify-vs-read-same-record", Src: db, Setup: []c08Req{post("/users", `{"name":"z"}`)}, Threads: [][]c08Req{{post("/bump/1", "")}, {get("/peek/1")}}, SafetyOnly: true, Bound: 2},
+		// the object a request handed to create() stays the request's own: what it does to it afterwards is not a provider operation
+		c08Scen{Name: "db/creator-edits-its-object-after-create", Src: db, Setup: []c08Req{post("/users", `{"name":"z"}`)}, Threads: [][]c08Req{{post("/mk", `{"name":"a"}`)}, {get("/row/2")}, {get("/count")}}, After: []c08Req{get("/row/2")}, Bound: 2, RowsAsStored: true},
+		// a key whose ttl has run out, read by two requests at once (lazy expiry must not write under a shared lock)
+		c08Scen{Name: "redis/two-reads-of-an-expired-key", Src: redis, Setup: []c08Req{post("/setex/k/1", ""), {M: "ADVANCE", Path: "2s"}}, Threads: [][]c08Req{{get("/get/k")}, {get("/get/k"), get("/exists/k")}}, After: []c08Req{get("/get/k")}, Bound: 2},
 	)
 	if thorough {
 		out = append(out,
@@ -334,6 +362,15 @@ func c08Build(mod *ast.Module, mode string) (*c08Sys, error) {
 }
 
 func (s *c08Sys) do(r c08Req) string {
+	if r.M == "ADVANCE" {
+		// not a request: virtual time passes (setup only), e.g. so that a key stored with a ttl has expired
+		d, err := time.ParseDuration(r.Path)
+		if err != nil {
+			panic(err)
+		}
+		vrt.Advance(d)
+		return "advanced " + r.Path
+	}
 	var body *strings.Reader
 	if r.Body != "" {
 		body = strings.NewReader(r.Body)
@@ -524,6 +561,13 @@ func c08Judge(x *vrt.Exec, o *c08Obs, sc c08Scen, allowed map[string]bool) (key,
 	}
 	if len(x.Races) > 0 {
 		return "data-race/" + vrt.RaceKey(x.Races[0]), "data race: " + x.Races[0]
+	}
+	if sc.RowsAsStored {
+		for _, r := range o.flat {
+			if strings.Contains(r, `"row"`) && (strings.Contains(r, `"scratch"`) || strings.Contains(r, `"count":7`)) {
+				return "stored-row-changed-outside-provider-operations", fmt.Sprintf("a row read back is %s: it carries what the creating request assigned to its own object after create() returned", r)
+			}
+		}
 	}
 	if sc.SafetyOnly {
 		for _, r := range o.flat {
